@@ -51,10 +51,18 @@ def parseConnEv (tok : String) : Option ConnEv :=
   else if tok == "M" then some .made
   else (parseHexBytes tok).map .data
 
+/-- read tokens: `N` the socket was not readable, `e` an empty read, anything else the bytes read -/
+def parseRead (tok : String) : Option (Option Bytes) :=
+  if tok == "N" then some none else (parseHexBytes tok).map some
+
 def showRawLines (ls : List Str) : String := showPackets (ls.map fun l => l.map Char.toNat)
 
 def framingCmd (cmd : String) (args : List String) : Option String :=
   match cmd, args with
+  | "TCPREAD", toks => do
+    let rs ← toks.mapM parseRead
+    let r := tcpReader rawDec {} rs
+    some s!"buf={showHex r.1.buffer} lines={showRawLines r.2}"
   | "EVENTS", toks => do
     let evs ← toks.mapM parseConnEv
     let k := feedEvents true rawDec {} evs
